@@ -16,6 +16,11 @@
  *   - floats/doubles are handled as their uint32_t/uint64_t bit patterns;
  *   - "consumed" is the number of input bytes that belong to the decoded
  *     object (the next object starts at in + *consumed);
+ *   - encoders do not branch on the values they encode where the format
+ *     allows it: a value that is illegal (does not fit the bit width, breaks a
+ *     dictated run / prefix / width) is reported as REF_ERR_ARG only after the
+ *     stream has been written, so that output positions stay independent of
+ *     symbolic data (see README.md, "Data-independent control flow");
  *   - out-parameter pointers must be non-NULL; data pointers may be NULL only
  *     when the matching length/capacity is 0.
  */
